@@ -420,6 +420,15 @@ func c15Gen(seed int, illegal int) *c15Graph {
 	for _, gn := range main.globals {
 		g.mainBody = append(g.mainBody, "print-own:"+gn)
 	}
+	// a module without any global whose pub function uses a value imported from a builtin module
+	// (its initialiser has no state to set up, only that import to bind)
+	if r.Intn(3) == 0 {
+		mq := &c15Mod{name: "mq", pubGlob: map[string]bool{}}
+		mq.extra = "import { assert_eq } from testing;\npub fn chkmq() { assert_eq(2, 2); println(\"mq.chk\"); }\n"
+		g.mods = append(g.mods, mq)
+		main.addImport("mq", "chkmq")
+		g.mainBody = append(g.mainBody, "raw:chkmq:mq.chk")
+	}
 	// an imported function started as a thread (last statement: main prints nothing after it)
 	if r.Intn(4) == 0 {
 		var fns []string
@@ -560,6 +569,22 @@ func c15Gen(seed int, illegal int) *c15Graph {
 			}
 		}
 		g.illegal = "same-illegal-import-in-two-modules"
+	case 13: // an import statement naming a module that does not exist, with nothing in its list
+		main.first = "import {} from nosuchmodule;\n"
+		g.illegal = "empty-import-from-missing-module"
+	case 14: // a private item that shares its name with a pub item of another kind in the same module
+		switch r.Intn(3) {
+		case 0: // pub type + private function, the function is imported
+			lib.extra += "pub type dual = int;\nfn dual() { println(\"" + lib.name + ".dual private\"); }\n"
+			main.addImport(lib.name, "dual")
+		case 1: // pub function + private type, the type is imported
+			lib.extra += "type twin = int;\npub fn twin() { println(\"" + lib.name + ".twin\"); }\n"
+			main.addImport(lib.name, "type twin")
+		default: // pub type + private global, the global is imported
+			lib.extra += "pub type both = int;\nlet both = \"" + lib.name + ".both private\";\n"
+			main.addImport(lib.name, "both")
+		}
+		g.illegal = "private-item-with-pub-namesake"
 	case 11: // a builtin module has the value but no type of that name; a library imports the value first
 		lib.extra += fmt.Sprintf("import { assert_eq } from testing;\npub fn chk%s() { assert_eq(1, 1); }\n", lib.name)
 		main.addImport(lib.name, "chk"+lib.name)
@@ -688,6 +713,9 @@ func (g *c15Graph) sources() Program {
 				case "closure":
 					mod, gn, _ := strings.Cut(arg, ":")
 					fmt.Fprintf(&b, "    let c%s%s = mk%s%s();\n    println(\"closure\", \"%s.%s\", c%s%s());\n    println(\"closure\", \"%s.%s\", c%s%s());\n", gn, mod, gn, mod, mod, gn, gn, mod, mod, gn, gn, mod)
+				case "raw":
+					fn, _, _ := strings.Cut(arg, ":")
+					fmt.Fprintf(&b, "    %s();\n", fn)
 				case "call-show":
 					fmt.Fprintf(&b, "    show%s();\n", arg)
 				case "assign-import":
@@ -793,6 +821,9 @@ func (g *c15Graph) expected() []string {
 				vals[mod+"."+gn] += "+"
 				out = append(out, fmt.Sprintf("closure %s.%s %s", mod, gn, vals[mod+"."+gn]))
 			}
+		case "raw":
+			_, line, _ := strings.Cut(arg, ":")
+			out = append(out, line)
 		case "call-show":
 			if _, ok := vals[arg+".lim"]; !ok {
 				vals[arg+".lim"], vals[arg+".cap"] = arg+".lim", "20"
@@ -1030,7 +1061,7 @@ func planC15(t *testing.T, tier string, seed uint64) ([]RunSpec, error) {
 		gseed := int(simrt.Mix(seed, uint64(gi)) % 1000000)
 		for backend := 0; backend < 2; backend++ {
 			add(map[string]int{"g": gseed, "backend": backend, "illegal": 0}, nil, orders)
-			ill := 1 + gi%12
+			ill := 1 + gi%14
 			add(map[string]int{"g": gseed, "backend": backend, "illegal": ill}, nil, 1+orders/4)
 			if gi%4 == 1 {
 				add(map[string]int{"g": gseed, "backend": backend, "illegal": 100}, nil, 1+orders/2)
